@@ -34,6 +34,12 @@ CHECKS = {
     text="Colliding cases reuse a local name for types of two namespaces with different members, name local elements and attributes like global components, name global elements like their type, bind one prefix to different namespaces in different files, use default-namespace QNames and permuted declaration order. Because references are index-based in the model the expected binding is known; rustc's nominal typing (g::mod_a::X vs g::mod_b::X) and the member lists expose a reference bound to the wrong namespace or kind.",
     note="Trusted: expect.rs, syn, rustc. WSDL-level references (message parts) are judged by C05.",
     design="DESIGN.md section 4 C09"),
+ "C10": dict(
+    category="exploration",
+    technique="property-based testing over an adversarial namespace-URI family with a static oracle: the emitted file is parsed with syn and the prefix<->URI and URI<->module relations collected from every yaserde attribute must be bijections, with every used prefix declared",
+    text="Thousands of generated file sets (1-6 files, target namespaces and extra declarations drawn from URIs built to collide under three-letter abbreviation, prefixes declared on the root / on the component / not at all, any import relation and order, optional WSDL wrapper, collision ladders) are emitted in workers and the output is read with syn. Exactly the statement is asserted: no duplicate module, one prefix per URI and one URI per prefix over the whole file, one module per target namespace holding all its structs, every prefix used by a field or an envelope declared somewhere.",
+    note="Trusted: syn and the attribute walker in outscan.rs. Visibility of a declaration where yaserde needs it, and NCName-validity of prefixes, are wire-level facts left to C03/C04.",
+    design="DESIGN.md section 4 C10"),
  "C11": dict(
     category="exploration",
     technique="exhaustive enumeration of small import graphs plus proptest-generated larger ones, run in isolated worker processes; BFS-reachability oracle on struct names (syn) and metamorphic byte-equality under changes to unreachable siblings",
